@@ -94,8 +94,8 @@ type State struct {
 	seq   map[siteKey]int
 	stamp int
 	// bookkeeping carried along a path
-	covers map[string]bool
-	calls  map[string]int // counters (verifrt.Count)
+	covers  map[string]bool
+	calls   map[string]int   // counters (verifrt.Count)
 	dom     map[*Term]uint64 // remaining values of small-range variables (derived from pc)
 	pending []knownRec
 	pknown  []knownRec
